@@ -243,6 +243,17 @@ def main(tier: str) -> int:
         for sched in (s3 if tier == "thorough" else rnd.sample(s3, min(len(s3), 40))):
             runs += 1
             check(run_interleaved(specs, sched), specs, {"mode": "generator-interleaving-with-parser"}, {"triple": [a, b, p], "schedule": sched})
+    # two (and three) PARSERS stepped alternately, over different streams and over the same bytes (equal table sizes, equal options rows)
+    for a, b in ([(x, y) for x in names for y in names] if tier == "thorough" else [tuple(rnd.choice(names) for _ in range(2)) for _ in range(5)] + [(names[0], names[0])]):
+        specs = {"A": (a, "par", base[a], solo.workloads()[a][0]), "B": (b, "par", base[b], solo.workloads()[b][0])}
+        for sched in (s2 if tier == "thorough" else rnd.sample(s2, 20)):
+            runs += 1
+            check(run_interleaved(specs, sched), specs, {"mode": "two-parsers-interleaved"}, {"pair": [a, b], "schedule": sched})
+        runs += 1
+        res, errs = run_threads_baton(specs, s2[len(s2) // 2])
+        for e in errs:
+            run.violation({"mode": "two-parsers-threads-baton", "clause": "raised"}, e, {"pair": [a, b]})
+        check(res, specs, {"mode": "two-parsers-threads-baton"}, {"pair": [a, b]})
     # free-running threads
     for a, b in pairs[:3]:
         specs = {"A": (a, "ser"), "B": (b, "ser"), "P": (a, "par", base[a], solo.workloads()[a][0])}
